@@ -263,6 +263,24 @@ def kani_counterexample(scratch, ob, res, hto, native_exe_cb):
     return info
 
 
+def native_check(scratch, ob, native_exe_cb):
+    base = {"engine": "native (rustc, --cfg verif_replay)", "kind": "native-check", "fns": ob.get("fns"), "desc": ob.get("desc"), "harness": ob["harness"], "nontrivial": True}
+    exe, err = native_exe_cb()
+    if exe is None:
+        base.update(status="undecided", note="native build failed: " + err[-300:])
+        return base
+    t0 = time.time()
+    rc, rout, secs, to = run([exe, ob["harness"], ""], cwd=scratch, timeout=300)
+    base["time"] = round(time.time() - t0, 2)
+    rm = re.search(r"REPLAY-RESULT: (.*)", rout)
+    if rm and rm.group(1).startswith("completed without failure"):
+        base.update(status="discharged")
+    else:
+        msg = "; ".join(re.findall(r"REPLAY-PANIC-MESSAGE: (.*)", rout)) or (rm.group(1) if rm else rout[-200:])
+        base.update(status="undecided", note="model validation failed (extraction no longer faithful): " + msg[:300])
+    return base
+
+
 def write_replay_file(prop, ob_id, r):
     os.makedirs(REPLAY_DIR, exist_ok=True)
     path = os.path.join(REPLAY_DIR, "%s__%s.json" % (prop, re.sub(r"[^A-Za-z0-9_.-]+", "_", ob_id)))
